@@ -7,6 +7,8 @@ import GormModel.Lemmas.Exec
 import GormModel.Gen.Pipelines
 import GormModel.Gen.Sessions
 import GormModel.Gen.Misc
+import GormModel.Gen.TxFacts
+import GormModel.Lemmas.TxFault
 namespace Gorm
 open Gen
 
@@ -86,6 +88,134 @@ example :
       ((pipelines.find? (fun p => p.1 = "create")).get!.2)
       { st := { dryRun := false, skipDefaultTx := false, err := false, skipHooks := false, hasSchema := true }, evs := [] }
     out.faulted = true ∧ out.post.map (·.what) = ["Rollback"] := by
+  decide
+
+/-! ### the failure is REPORTED: error values are never inspected, cleared or dropped on the way to `db.Error` -/
+
+/-- no code in the root or callbacks package sets an `.Error` field back to nil, except BeginTransaction
+    discarding the error of the throw-away handle returned by `db.Begin()` -/
+theorem C05_error_never_cleared :
+    ∀ w ∈ errorWrites, w.2.2.2 = "nil" →
+      w = ("callbacks/transaction.go", "BeginTransaction", "tx.Error", "nil") := by
+  decide
+
+/-- `.Error` is assigned directly only by AddError itself and by four places that store a freshly produced
+    error; in particular neither the transaction finisher nor Commit/Rollback nor a write handler does -/
+theorem C05_error_writers :
+    ∀ w ∈ errorWrites, w.2.1 ∈ ["DB.AddError", "DB.FirstOrCreate", "DB.Rows", "RowQuery", "BeginTransaction"] := by
+  decide
+
+/-- the only places that look at WHICH error they hold: schema parsing (`ErrUnsupportedDataType`), the prepared
+    statement cache eviction (`driver.ErrBadConn`, the error is still returned: C14) and BeginTransaction
+    recognising "already inside a transaction".  No commit, rollback, statement or hook error is special-cased. -/
+theorem C05_no_error_value_special_casing :
+    ∀ t ∈ errValueTests,
+      (t.2.2 = "errors.Is(err, schema.ErrUnsupportedDataType)" ∧ (t.2.1 = "processor.Execute" ∨ t.2.1 = "DB.ScanRows")) ∨
+      (t.2.2 = "errors.Is(err, driver.ErrBadConn)" ∧ t.1 = "prepare_stmt.go") ∨
+      t = ("callbacks/transaction.go", "BeginTransaction", "tx.Error == gorm.ErrInvalidTransaction") := by
+  decide
+
+/-- `DB.Commit` / `DB.Rollback` hand the pool's result to AddError directly (`db.AddError(committer.Commit())`),
+    under conditions about the pool only; `DB.Begin` hands over every non-nil BeginTx error -/
+theorem C05_tx_errors_to_addError :
+    txFuncs.map (fun h => (h.name, (h.calls.filter (fun c => c.kind = "adderror")).map (fun c => (c.what, c.guards)))) =
+      [ ("DB.Begin", [("err", ["err != nil"])]),
+        ("DB.Commit", [("committer.Commit()", ["ok", "committer != nil", "!reflect.ValueOf(committer).IsNil()"]),
+                       ("ErrInvalidTransaction", [])]),
+        ("DB.Rollback", [("committer.Rollback()", ["ok", "committer != nil", "!reflect.ValueOf(committer).IsNil()"]),
+                         ("ErrInvalidTransaction", [])]) ] := by
+  decide
+
+set_option maxRecDepth 8192 in
+/-- the sources `TxF.beginTransaction` / `TxF.commitOrRollback` transcribe (regenerated text compared literally):
+    after `db.Commit()` / `db.Rollback()` nothing but the pool reset follows -/
+theorem C05_tx_callbacks_src :
+    beginTransactionSrc = "{ if !db.Config.SkipDefaultTransaction && db.Error == nil { if tx := db.Begin(); tx.Error == nil { db.Statement.ConnPool = tx.Statement.ConnPool db.InstanceSet(\"gorm:started_transaction\", true) } else if tx.Error == gorm.ErrInvalidTransaction { tx.Error = nil } else { db.Error = tx.Error } } }" ∧
+    commitOrRollbackSrc = "{ if !db.Config.SkipDefaultTransaction { if _, ok := db.InstanceGet(\"gorm:started_transaction\"); ok { if db.Error != nil { db.Rollback() } else { db.Commit() } db.Statement.ConnPool = db.ConnPool } } }" := by
+  constructor <;> decide
+
+/-- every statement-sending call of the write / query / raw handlers is immediately followed by `AddError(err)`
+    under the same conditions (at most narrowed by `err != nil`) -/
+theorem C05_statement_error_sinks :
+    ∀ h ∈ handlers, h.name ∈ ["Create", "Update", "Delete", "Query", "RawExec"] → TxF.sinkOK h.calls = true := by
+  decide
+
+/-! ### the implicit transaction over error values (Model/TxFault.lean, tied by suites tx-callbacks / tx-trace) -/
+
+open TxF in
+/-- a failing COMMIT is reported, whatever value it fails with -/
+theorem C05_commit_failure_reported (s : St) (e : String) (r : Option String)
+    (hs : s.started = true) (he : s.err = none) :
+    (commitOrRollback false s (some e) r).err = some e ∧
+    (commitOrRollback false s (some e) r).log = s.log ++ ["C!"] := by
+  simp [commitOrRollback, hs, he, addError]
+
+open TxF in
+/-- a failing BEGIN is reported and starts nothing (any value but gorm's own "already in a transaction" sentinel) -/
+theorem C05_begin_failure_reported (s : St) (e : String) (he : s.err = none) :
+    (beginTransaction false s (.fail e)).err = some e ∧ (beginTransaction false s (.fail e)).started = false
+      ∨ s.started = true := by
+  cases hst : s.started with
+  | true => exact Or.inr rfl
+  | false => left; simp [beginTransaction, he, beginErr, hst]
+
+open TxF in
+/-- MAIN (values): whichever of BEGIN, a statement or the COMMIT fails, with whatever error value, the
+    operation ends with an error; and an operation that ends with an error has not committed -/
+theorem C05_failure_reported (b : BeginRes) (es : List (Option String)) (c r : Option String) :
+    ((∃ e, b = .fail e) ∨ (b = .ok ∧ (es.any Option.isSome = true ∨ c.isSome = true)) →
+        (runWrite false b es c r).err ≠ none) ∧
+    ((runWrite false b es c r).err ≠ none → "C" ∉ (runWrite false b es c r).log) := by
+  constructor
+  · rintro (⟨e, rfl⟩ | ⟨rfl, hf⟩)
+    · -- BEGIN failed
+      have h1 : (beginTransaction false St.init (.fail e)).err ≠ none := by
+        simp [beginTransaction, St.init, beginErr]
+      exact finish_sticky _ _ _ _ (stmts_err_sticky _ es h1)
+    · -- BEGIN ok
+      have hstarted : (stmts (beginTransaction false St.init .ok) es).started = true := by
+        rw [(stmts_frame _ es).1, begin_ok]
+      apply finish_reports _ _ _ hstarted
+      rcases hf with hf | hf
+      · exact Or.inl (stmts_reports _ es hf)
+      · right; cases c with
+        | none => simp at hf
+        | some x => simp
+  · -- an error at the end => no successful COMMIT in the trace
+    intro herr
+    exact finish_noC _ _ _ (stmts_noC _ es (begin_inv b).2.2) herr
+
+open TxF in
+/-- the implicit transaction is always finished: whatever fails, no transaction opened by the operation stays
+    open and the statement is back on the base pool -/
+theorem C05_always_finished (b : BeginRes) (es : List (Option String)) (c r : Option String) :
+    (runWrite false b es c r).openTx = 0 ∧ (runWrite false b es c r).onTx = false := by
+  have hfr := stmts_frame (beginTransaction false St.init b) es
+  have hb := begin_inv b
+  apply finish_finished
+  · intro h; rw [hfr.2.2]; exact hb.1 (hfr.1 ▸ h)
+  · intro h; rw [hfr.2.2, hfr.2.1]; exact hb.2.1 (hfr.1 ▸ h)
+
+open TxF in
+/-- without a failure the operation applies completely: BEGIN, every statement in order, COMMIT, no error -/
+theorem C05_no_failure_applies (es : List (Option String)) (r : Option String)
+    (h : es.all Option.isNone = true) :
+    runWrite false .ok es none r =
+      { err := none, started := true, onTx := false, openTx := 0,
+        log := ["B"] ++ List.replicate es.length "S" ++ ["C"] } := by
+  have hb : beginTransaction false St.init .ok =
+      { St.init with started := true, onTx := true, openTx := 1, log := ["B"] } := by
+    simp [beginTransaction, St.init, beginErr]
+  unfold runWrite
+  rw [hb, stmts_all_ok _ es (by simp [St.init]) h]
+  simp [commitOrRollback, St.init, addError]
+
+/-- non-vacuity: a COMMIT failing with the text of sql.ErrTxDone after two statements -/
+example :
+    (TxF.runWrite false .ok [none, none] (some "sql: transaction has already been committed or rolled back") none).err
+      = some "sql: transaction has already been committed or rolled back" ∧
+    (TxF.runWrite false .ok [none, none] (some "x") none).log = ["B", "S", "S", "C!"] ∧
+    (TxF.runWrite false .ok [none, some "boom", none] none none).log = ["B", "S", "S!", "R"] := by
   decide
 
 end Gorm
